@@ -17,7 +17,14 @@ def container_method(E, recv, c, name, args, kwargs, fr, node):
                 E.setcell(recv, ("pylist", c[1] + [args[0]]))
             else:
                 sv = c[1]
-                x = E.to_sv(args[0], sv.ty.elem)
+                a0 = args[0]
+                if isinstance(a0, SV) and isinstance(a0.ty, TOpt) and a0.ty.elem == sv.ty.elem and not isinstance(sv.ty.elem, TOpt):
+                    # an optional value that is known not to be None on this path (after `if x is None: ...`)
+                    so = sort(a0.ty)
+                    if not E.entails(so.is_some(a0.t)):
+                        raise Unsupported("append of a possibly-None value to a list of %r" % (sv.ty.elem,))
+                    a0 = SV(so.val(a0.t), sv.ty.elem)
+                x = E.to_sv(a0, sv.ty.elem)
                 E.setcell(recv, ("seq", SV(z3.Concat(sv.t, z3.Unit(x.t)), sv.ty)))
             return None
         if name == "extend":
